@@ -64,3 +64,19 @@ def _levels(clause, replay, ctx):
     what the code did is exactly what the Impl layer (ResolveImpl.tla, which
     models the integer levels) predicts for that input."""
     return ctx.get("kf") == "1"
+
+
+@matcher("zeroargs")
+def _zeroargs(clause, replay, ctx):
+    """A call that supplies nothing to dispatch on (no positional argument, no
+    keyword-only argument) while some method with parameters accepts it: the
+    entry point builds an empty key, which only a parameterless method answers.
+    Flag computed by Trace_Entry (KF_zeroargs over the Impl model)."""
+    return ctx.get("kflag") == "z" and clause.startswith("C03:accept_promised_shape.got_nomethod")
+
+
+@matcher("dropkw")
+def _dropkw(clause, replay, ctx):
+    """A named optional positional given by keyword behind an omitted optional
+    positional is not forwarded.  Flag computed by Trace_Entry (KF_dropkw)."""
+    return ctx.get("kflag") == "d" and clause.startswith("C03:bind.")
